@@ -305,6 +305,6 @@ Proof. vm_compute. reflexivity. Qed.
 Theorem amino_table_is_source b : is_byte b -> g_sequtil_aminoToName b = lit_amino b.
 Proof.
   intros Hb. pose proof (proj1 (forallb_forall _ _) amino_names_sweep b (in_bytes256 b Hb)) as H.
-  destruct (g_sequtil_aminoToName b) as [[x1 y1]|], (lit_amino b) as [[x2 y2]|]; cbn [opt_names_eqb] in H; try discriminate; try reflexivity.
+  cbv beta in H. revert H. destruct (g_sequtil_aminoToName b) as [[x1 y1]|], (lit_amino b) as [[x2 y2]|]; cbn [opt_names_eqb]; intros H; try discriminate; try reflexivity.
   apply andb_true_iff in H. destruct H as [H1 H2]. apply beqb_true_eq in H1. apply beqb_true_eq in H2. subst. reflexivity.
 Qed.
